@@ -441,8 +441,94 @@ func (g *genSt) openSession() {
 	}
 }
 
+// a rebalance of the same stream object onto a changed range; contexts of before stay acknowledgeable
+func (g *genSt) rebalance() {
+	r := g.c.R
+	g.drainSavers(false)
+	if len(g.savers) > 0 || g.lock {
+		return
+	}
+	lo, hi := g.lo, g.hi
+	switch r.Intn(4) {
+	case 0: // shrink from the top
+		if hi > lo {
+			hi--
+		}
+	case 1: // shrink from the bottom
+		if hi > lo {
+			lo++
+		}
+	case 2: // grow
+		if hi < 1023 {
+			hi++
+		}
+	default: // shift
+		if hi < 1023 {
+			lo++
+			hi++
+		}
+	}
+	for vb := lo; vb <= hi; vb++ {
+		h := g.high[vb]
+		if v := g.vbs[vb]; v != nil && v.next > 0 && v.next-1 > h {
+			h = v.next - 1
+		}
+		if d, ok := g.e.meta.store[uint16(vb)]; ok && d.Checkpoint.SeqNo > h {
+			h = d.Checkpoint.SeqNo
+		}
+		if _, known := g.high[vb]; !known || h != g.high[vb] {
+			if !known && h == 0 {
+				h = uint64(r.Intn(100))
+			}
+			g.high[vb] = h
+			g.do(fmt.Sprintf("high %d %d", vb, h))
+			g.do(fmt.Sprintf("flog %d %d", vb, 1+r.Intn(5000)))
+		}
+	}
+	if r.Chance(50) && !g.ro {
+		g.do("save ok")
+	}
+	real := g.do(fmt.Sprintf("rebalance %d %d", lo, hi))
+	g.tags["life.rebalance"] = true
+	g.lo, g.hi = lo, hi
+	for _, part := range strings.Split(real, " ; ") {
+		f := strings.Fields(part)
+		if len(f) == 3 && f[0] == "openreq" {
+			vb, _ := strconv.Atoi(f[1])
+			tup := strings.Split(strings.Trim(f[2], "()"), ",")
+			seq, _ := strconv.ParseUint(tup[1], 10, 64)
+			g.vbs[vb] = &vbGen{next: seq + 1}
+		}
+	}
+	// acknowledgements issued after the rebalance changed the assigned range
+	for i := 0; i < r.Intn(4) && len(g.ctxIdx) > 0; i++ {
+		g.tags["ack.after-rebalance"] = true
+		g.do(fmt.Sprintf("ack %d", g.ctxIdx[r.Intn(len(g.ctxIdx))]))
+	}
+}
+
+// a transient stream end: the vBucket is re-requested from its position, possibly on a new history branch
+func (g *genSt) reopen() {
+	r := g.c.R
+	vb := g.pickVb()
+	if r.Chance(60) {
+		g.do(fmt.Sprintf("flog %d %d", vb, 1+r.Intn(5000)))
+		g.tags["reopen.new-uuid"] = true
+	}
+	g.do(fmt.Sprintf("reopen %d", vb))
+	g.tags["reopen"] = true
+}
+
 func (g *genSt) life() {
 	r := g.c.R
+	switch x := r.Intn(100); {
+	case x < 25:
+		g.rebalance()
+		return
+	case x < 45:
+		g.reopen()
+		return
+	}
 	if r.Chance(55) {
 		// crash: savers inside the store call get their verdict first (the write happened or not);
 		// savers before the lock or between store and unmark simply die with the process
